@@ -186,7 +186,9 @@ class Probe(object):
       if hostile and not isinstance(e, (self.pickle.UnpicklingError, ImportError)):
         # other exception classes for malformed programs are C11's business; a global reference outside
         # the allow-list must be *rejected as an invalid pickle*
-        if refs and all(r not in ALLOW for r in refs) and not what.startswith('call:BUILD'):
+        # (payloads that carry a second, unrelated malformation - an undecodable python2 string - may be
+        # rejected for that reason first)
+        if refs and all(r not in ALLOW for r in refs) and not what.startswith('call:BUILD') and 'undecodable' not in what:
           return ('wrong-rejection', '%s: rejected with %r instead of UnpicklingError' % (what, e))
     return None
 
@@ -204,7 +206,9 @@ def shard(arg):
                   ('GLOBAL/p2', pk.prog(pk.g_global(mod, name), 2)),
                   ('STACK_GLOBAL/p4', pk.prog(pk.g_stack_global(mod, name), 4)),
                   ('STACK_GLOBAL/p5', pk.prog(pk.g_stack_global(mod, name), 5)),
-                  ('GLOBAL in metric slot', pk.prog(nestings(pk.g_global(mod, name), 1)['metric@1'], 2))]
+                  ('GLOBAL in metric slot', pk.prog(nestings(pk.g_global(mod, name), 1)['metric@1'], 2)),
+                  # a python2-style 8-bit string that is not valid UTF-8, popped again, before the global
+                  ('GLOBAL after undecodable SHORT_BINSTRING', pk.prog(b'U\x02\xff\xfe0' + pk.g_global(mod, name), 2))]
       refs = [(mod, name)]
       for vname, payload in variants:
         n += 1
@@ -254,6 +258,15 @@ def structured_payloads():
     for g in (pk.g_global, pk.g_stack_global):
       for slot, nested in sorted(nestings(g(mod, name)).items()):
         items.append(('lookup:%s in %s %s.%s' % (g.__name__, slot, mod, name), pk.prog(nested, 2), [(mod, name)]))
+  for mod, func, cls, old in targets[:2]:
+    routes = pk.call_routes(mod, func, cls, old, {})
+    for rname, body in sorted(routes.items()):
+      for pre_name, pre in (('SHORT_BINSTRING', b'U\x02\xff\xfe0'), ('BINSTRING', b'T\x02\x00\x00\x00\xff\xfe0'),
+                            ('STRING', b"S'\\xff\\xfe'\n0")):
+        items.append(('call:%s after undecodable %s -> %s' % (rname, pre_name, mod), pk.prog(pre + body, 2),
+                      [(mod, func), (mod, cls), (mod, old)]))
+        items.append(('call:%s after undecodable %s in metric slot -> %s' % (rname, pre_name, mod),
+                      pk.prog(pk.lst(pk.tup(pre + body, pk.tup(pk.i(1), pk.f(1.0)))), 2), [(mod, func), (mod, cls), (mod, old)]))
   for mod in UNLOADED:
     items.append(('lookup:GLOBAL unloaded module %s' % mod, pk.prog(pk.g_global(mod, 'x'), 2), [(mod, 'x')]))
   # benign control: plain data must come back as plain data
